@@ -216,8 +216,11 @@ def gen_recognition(seed, big):
     equal to tokenize_spec; the gap to leftmost-shortest matching is known finding K1 and is NOT tested here)"""
     rnd = random.Random(seed + 7)
     out = []
-    for ds, de in DELIMS + [('aab', 'bba'), ('// --', '-- //'), ('「「', '」」'), ('/* «', '» */'), ('«<', '>»'), ('é<', '>é'), ('<%#', '-%>'), ('@@', '@@'), ('#', '##'), ('##', '#'), ('|', '|')]:
-        atoms = sorted(set(list(ds) + list(de) + [' ', 'x', 'あ', '\\', '\n', '"', ds, de, ds + 'r' + de, ds + de]
+    for ds, de in DELIMS + [('aab', 'bba'), ('// --', '-- //'), ('「「', '」」'), ('/* «', '» */'), ('«<', '>»'), ('é<', '>é'), ('<%#', '-%>'), ('@@', '@@'), ('#', '##'), ('##', '#'), ('|', '|'),
+                            # delimiters longer than a handful of characters: the whole delimiter counts, however long
+                            ('<!-- chiritori:', '-->'), ('/* <', '> end-of-tag */'), ('/* feature: <', '> */'), ('0123456789abcdefXYZ', 'ZYXfedcba9876543210'), ('<<<<<<<<<<<<', '>>>>>>>>>>>>')]:
+        pref = [d[:k] for d in (ds, de) for k in (len(d) - 1, len(d) // 2, 7, 8, 9, 15, 16, 17) if 1 < k < len(d)]
+        atoms = sorted(set(list(ds) + list(de) + pref + [' ', 'x', 'あ', '\\', '\n', '"', ds, de, ds + 'r' + de, ds + de]
                            + [chr(0x0400 | ord(c)) for c in ds + de if ord(c) < 0x80] + [chr(0x6500 | ord(c)) for c in (ds + de)[:2] if ord(c) < 0x80]))
         for _ in range(500 if big else 150):
             src = ''.join(rnd.choice(atoms) for _ in range(rnd.randint(0, 8)))
@@ -239,7 +242,10 @@ def gen_expiry(seed, big):
     import datetime
     base = datetime.datetime(2024, 2, 29, 23, 59, 59)
     offs = [(-12, 0), (-5, 0), (-3, 30), (0, 0), (5, 45), (9, 0), (14, 0)]
-    for (h, m), colon in itertools.product(offs, (True, False)):
+    # besides the leap-day base: wall clocks in the first and last seconds/hours of a year, where the year of the instant
+    # differs between the configured offset, UTC and the process's local zone
+    bases = [base, datetime.datetime(2025, 1, 1, 0, 0, 0), datetime.datetime(2024, 12, 31, 23, 59, 59), datetime.datetime(2025, 1, 1, 6, 30, 0), datetime.datetime(2000, 1, 1, 0, 0, 0)]
+    for base, ((h, m), colon) in itertools.product(bases, itertools.product(offs, (True, False))):
         sign = '-' if (h < 0) else '+'
         o = f"{sign}{abs(h):02d}{':' if colon else ''}{m:02d}"
         delta = datetime.timedelta(hours=h, minutes=(m if h >= 0 else -m))
@@ -252,6 +258,7 @@ def gen_expiry(seed, big):
                         (lambda e, dd, oo: lambda r: None if r.get('ok') and r.get('output') == e else f'expiry decision wrong at now - to = {dd}s, offset {oo}: ' + json.dumps(r, ensure_ascii=False)[:160])(exp, d, o)))
     # the current instant may carry a fraction of a second: any instant before `to` keeps the element, `to` itself and
     # anything later removes it - no rounding to whole seconds
+    base = bases[0]
     for o, secs in (('+00:00', 0), ('+0900', 9 * 3600), ('-03:30', -(3 * 3600 + 30 * 60))):
         to_utc = base - datetime.timedelta(seconds=secs)
         for ms, ready in ((-1, False), (-500, False), (-999, False), (-1001, False), (0, True), (1, True), (999, True)):
@@ -289,7 +296,10 @@ def gen_expiry(seed, big):
             src = f"A\n<{TL} to='{to}'>\nB\n</{TL}>\nC\n"
             out.append((dict(cfg(offset=o), mode='clean', source=src, ds='<', de='>'),
                         (lambda t, oo: lambda r: ('clean panicked on an extreme `to`: ' + str(r.get('panic'))[:120]) if not r.get('ok') else None)(to, o)))
-    bad_to = ['2024/01/01 00:00:00', '2020-01-01', '2020-13-01 00:00:00', '2020-01-01 25:00:00', '2020-01-01 00:00:00 +09:00', '', 'yesterday']
+    bad_to = ['2024/01/01 00:00:00', '2020-01-01', '2020-13-01 00:00:00', '2020-01-01 25:00:00', '2020-01-01 00:00:00 +09:00', '', 'yesterday',
+              # days that do not exist in that month are not dates: never ready (not "the last day of the month")
+              '2020-02-30 23:59:59', '2021-04-31 00:00:00', '2023-02-29 00:00:00', '1900-02-29 00:00:00', '2020-06-31 12:00:00', '2020-01-32 00:00:00', '2020-01-00 00:00:00', '2020-00-10 00:00:00',
+              '2020-01-01 24:00:00', '2020-01-01 00:60:00', '2020-01-01 00:00:61']
     bad_off = ['', '0900', '+09', 'Z', 'JST', '+25:00', '+09:00:00', '+0900 JST', '+09:00Z', '+00:00 UTC', '-0330x', '+09000', '+09:00 ', '+9:00']
     for t in bad_to:
         src = f"A\n<{TL} to='{t}'>\nB\n</{TL}>\nC\n"
@@ -388,7 +398,7 @@ def gen_grammar(seed, big):
     values = ['v', 'a b', 'x=y', "it's", 'say "hi"', 'line\nbreak', 'skip', 'unwrap-block', '<', '', ' padded ', 'あ=い', 'C:\\legacy\\', 'a\\', '\\', 'x\\y']
     seps = [' ', '  ', '\n', '\n  ', ' \n ']
     for _ in range(400 if big else 150):
-        name = rnd.choice(['tag', 'time-limited', 'a', 'x-y', 'タグ'])
+        name = rnd.choice(['tag', 'time-limited', 'a', 'x-y', 'タグ', '2fa-rollout', '#region', '@todo', '-x', '9', '24h', '_p', '*', '!doctype', '?xml', '$v', '.cls', '+1', '~', 'é', '٣x', '(a)', '[b]', '{c}', 'a/b', 'x:y', '&amp;'])
         n = rnd.randint(0, 4)
         attrs, text = [], name
         for i in range(n):
@@ -1331,7 +1341,9 @@ def gen_blanklines(seed, big):
         for b in range(0, 4):
             for a in range(0, 4):
                 for blank in ('', '  ', '\t', ' \t'):
-                    for X, Y in (('X é', 'Y'), ('foo()', '}'), ('if (a) {', ')'), ('[', '];'), ('// c', '} // 終')):
+                    for X, Y in (('X é', 'Y'), ('foo()', '}'), ('if (a) {', ')'), ('[', '];'), ('// c', '} // 終'),
+                                 # neighbour lines made only of multi-byte characters (2, 3 and 4 bytes each), with and without blanks
+                                 ('🎉🎉', '𝕏'), ('𠮷 😀', '\U0010FFFF'), ('éé', 'ß'), ('日本', '語 '), ('😀\t', '🎉 🎉')):
                         if (X, Y) != ('X é', 'Y') and (blank in ('\t', ' \t') or b == 3 or a == 3):
                             continue
                         src = ind + X + '\n' + (blank + '\n') * b + ind + f"<{RM} name='f1'>\n" + ind + '  gone\n' + ind + f"</{RM}>\n" + (blank + '\n') * a + ind + Y + '\n'
@@ -1496,13 +1508,14 @@ def gen_list_regions(seed, big):
                 # a ready element that starts and ends in the middle of a line and spans several lines
                 pre, post = rnd.choice(['x = ', 'é ', 'let a = 1; ']), rnd.choice([';', ' let b = 2;', ' // tü'])
                 first = len(lines) + 1
-                mids = [ind + '  ' + rnd.choice(['older();', 'é = 2;', 'これ']) for _ in range(rnd.randint(0, 3))]
+                mids = [ind + '  ' + rnd.choice(['older();', 'é = 2;', 'これ', 'older();   ', 'これ \t']) for _ in range(rnd.randint(0, 3))]
                 o, c = f"<{RM} name='f1'>old();", f"last();</{RM}>"
                 lines += [ind + pre + o] + mids + [ind + c + post]
                 regions.append((first, len(lines), '\n'.join([o] + mids + [ind + c])))
             elif kind == 'block':
                 first = len(lines) + 1
-                inner = [ind + '  ' + rnd.choice(['gone();', 'é = 2;']) for _ in range(rnd.randint(0, 2))]
+                # (lines of the region may end in blanks or be blank: those blanks belong to the region's text like any other byte)
+                inner = [ind + '  ' + rnd.choice(['gone();', 'é = 2;', 'trail();  ', 'tab();\t', '  ', '']) for _ in range(rnd.randint(0, 2))]
                 blk = [ind + f"<{TL} to='{PAST}'>"] + inner + [ind + f"</{TL}>"]
                 lines += blk
                 text = '\n'.join(blk)[len(ind):]
